@@ -73,13 +73,37 @@ def in_loop(func_node, node):
     return False
 
 
-def guard_conditions(func_node, node, stop=None):
-    """[(test expr, polarity)] of the enclosing if/elif/while/ifexp branches of `node` (outermost first)."""
+def _exits(body):
+    if not body:
+        return False
+    st = body[-1]
+    if isinstance(st, (ast.Return, ast.Raise, ast.Continue, ast.Break)):
+        return True
+    return isinstance(st, ast.If) and bool(st.orelse) and _exits(st.body) and _exits(st.orelse)
+
+
+def guard_conditions(func_node, node, stop=None, flat=None):
+    """[(test expr, polarity)] of the enclosing if/elif/while/ifexp branches of `node` (outermost first).
+    flat (default: on for canonical trees, which write `if c: return A` + rest instead of if/else): a preceding sibling `if c: <exits>` without else
+    contributes (c, False) - the statement is only reached when c was false."""
     pm = parents_of(func_node)
+    if flat is None:
+        flat = bool(getattr(func_node, "_canonical", False))
     out = []
     prev = node
     cur = pm.get(id(node))
     while cur is not None and cur is not stop:
+        if flat:
+            for fld in ("body", "orelse", "finalbody"):
+                blk = getattr(cur, fld, None)
+                if isinstance(blk, list) and any(prev is s for s in blk):
+                    pre = []
+                    for s in blk:
+                        if s is prev:
+                            break
+                        if isinstance(s, ast.If) and not s.orelse and _exits(s.body):
+                            pre.append((s.test, False))
+                    out.extend(pre[::-1])
         if isinstance(cur, ast.If):
             if any(prev is s for s in cur.body):
                 out.append((cur.test, True))
@@ -303,6 +327,14 @@ class Src(str):
             inst = "".join(nb.get(x, x) if i % 2 else x for i, x in enumerate(pc))
             best = max(best, str.count(self, inst))
         return best
+
+
+def like_any(src, *alternatives):
+    """True if all patterns of one of the alternatives (lists of patterns) are found, each alternative with its own binding of the placeholders"""
+    for alt in alternatives:
+        if Src(str(src)).all_like(*([alt] if isinstance(alt, str) else alt)):
+            return True
+    return False
 
 
 def src_of(node):
